@@ -378,6 +378,12 @@ func c02Cast(v interface{}, typ string) (interface{}, error) {
 		}
 	case float64:
 		switch typ {
+		case "int":
+			// the integral part (truncation toward zero); only small finite values are generated
+			if math.IsNaN(t) || math.IsInf(t, 0) || math.Abs(t) > 1e15 {
+				return nil, fmt.Errorf("harness: float -> int cast of %v is outside the modelled range", t)
+			}
+			return int64(t), nil
 		case "float":
 			return t, nil
 		case "string":
